@@ -79,6 +79,10 @@ pub fn check_string(sh: &Shared, c: &SCase) -> Check {
                 let l = fmts::l(fi);
                 (guard(|| l.parse(&s2).is_ok()).ok(), guard(|| l.parse_term(&s2).is_ok()).ok())
             });
+            let Ok(got) = got else {
+                sh.class("inconclusive/context-thread-not-started");
+                continue;
+            };
             match got {
                 None => fail!("context:thread-died", "input {s:?}: the thread parsing inside {ctx:?} died"),
                 Some(g) if g != here => fail!("context:outcome-differs", "input {s:?}\n(parse ok, parse_term ok) here = {here:?}, inside {ctx:?} = {g:?} (None = panic)"),
